@@ -76,9 +76,12 @@ type Item struct {
 // Emit: a call of the function appends a record to a ghost trace channel.
 // GhostAt is a ghost emission attached to instructions of the function under verification.
 type GhostAt struct {
-	Kind string // send | mapupdate | call
-	Arg  string
-	Emit *Emit
+	Kind       string // send | mapupdate | call | go
+	Arg        string
+	Emit       *Emit
+	Assume     *SExpr
+	AssumeText string
+	Assert     bool // `assert`: proved at the program point (one obligation), then assumed
 }
 
 type Emit struct {
@@ -323,6 +326,34 @@ func parseContractFile(path, pkgPath string) ([]*Item, error) {
 				}
 				anchor := strings.Fields(rest[3:k])
 				body := strings.TrimSpace(rest[k+2:])
+				if strings.HasPrefix(body, "assert ") && len(anchor) > 0 {
+					// ghost at <anchor> :: assert <expr> — a proof hint: an obligation at that program
+					// point, assumed afterwards (nothing is trusted)
+					x, err := parseSpecExpr(strings.TrimSpace(body[7:]))
+					if err != nil {
+						return nil, fail(err)
+					}
+					g := &GhostAt{Kind: anchor[0], Assume: x, AssumeText: strings.TrimSpace(body[7:]), Assert: true}
+					if len(anchor) > 1 {
+						g.Arg = anchor[1]
+					}
+					cur.GhostAt = append(cur.GhostAt, g)
+					break
+				}
+				if strings.HasPrefix(body, "assume ") && len(anchor) > 0 {
+					// ghost at <anchor> :: assume <expr> — an explicit, reported assumption made at
+					// that program point (listed among the trusted base of the evidence)
+					x, err := parseSpecExpr(strings.TrimSpace(body[7:]))
+					if err != nil {
+						return nil, fail(err)
+					}
+					g := &GhostAt{Kind: anchor[0], Assume: x, AssumeText: strings.TrimSpace(body[7:])}
+					if len(anchor) > 1 {
+						g.Arg = anchor[1]
+					}
+					cur.GhostAt = append(cur.GhostAt, g)
+					break
+				}
 				if !strings.HasPrefix(body, "emit ") || len(anchor) == 0 {
 					return nil, fail(fmt.Errorf("ghost at needs <anchor> :: emit ch(args)"))
 				}
